@@ -87,11 +87,19 @@ pub fn install_quiet_panic_hook() {
             .location()
             .map(|l| format!("{}:{}", l.file(), l.line()))
             .unwrap_or_default();
-        TL_PANIC_LOC.with(|c| *c.borrow_mut() = loc);
+        TL_PANIC_LOC.with(|c| *c.borrow_mut() = loc.clone());
+        if let Ok(mut g) = LAST_PANIC_LOC.lock() {
+            *g = loc;
+        }
     }));
 }
 pub fn last_panic_loc() -> String {
-    TL_PANIC_LOC.with(|c| c.borrow().clone())
+    let l = TL_PANIC_LOC.with(|c| c.borrow().clone());
+    if !l.is_empty() {
+        return l;
+    }
+    // a panic raised on a worker thread and re-raised here: fall back to the last one seen
+    LAST_PANIC_LOC.lock().map(|g| g.clone()).unwrap_or_default()
 }
 /// Strip the absolute prefix so signatures are stable: "/repo/src/x.rs:12" -> "src/x.rs"
 pub fn panic_site() -> String {
